@@ -150,3 +150,75 @@ def r_mmapi(root):
             got = has(t_)
             rep("C13", "C13.g", "TextXMetaModel.has_obj_processor", "registration %d: has_obj_processor(%r) -> %r" % (i_ + 1, t_, got), got is want, "after registration number %d (for %s) has_obj_processor(%r) answers %r, documented %r" % (i_ + 1, sorted(tab) or "nothing", t_, got, want))
     return inst, out
+
+def r_namespaces(root):
+    """C25.j / C25.k  by evaluation:
+      C25.j  TextXMetaModel._namespace_for_file_name on a meta-model object built by interpreting __init__ for the main
+             file /proj/main.tx: the namespace of the main grammar file (a file in the root directory) is its name without the
+             extension - whatever letters the name ends in (syntax.tx, text.tx, ext.tx, x.tx.tx)
+      C25.k  TextXVisitor.visit_reference_stm: `reference L as a` makes L known under the alias a and under nothing else;
+             `reference L` under L itself"""
+    from sa import objmodel
+    out = []; inst = 0
+    me, base = objmodel.new_metamodel(root, file_name="/proj/main.tx")
+    for f, want in (("/proj/main.tx", "main"), ("/proj/syntax.tx", "syntax"), ("/proj/text.tx", "text"), ("/proj/ext.tx", "ext"), ("/proj/xt.tx", "xt"), ("/proj/t.tx", "t"), ("/proj/x.tx.tx", "x.tx"), (None, None)):
+        inst += 1
+        k, v = objmodel.call_method(root, me, base, "_namespace_for_file_name", f)
+        ok = k == "ret" and v == want
+        ob("C25", "C25.j", MM, "TextXMetaModel._namespace_for_file_name", "%s -> %r" % (f, v if k == "ret" else "raises " + v.cls), ok)
+        if not ok: out.append(Finding("C25", "C25.j", MM, "TextXMetaModel._namespace_for_file_name", str(f), "with the main grammar in /proj the namespace of %s is %r, documented %r: classes of that file get a wrong qualified name and are not found under the documented one" % (f, v if k == "ret" else "an exception " + v.cls, want), witness="grammar file %s" % f))
+    L = "textx/lang.py"; vr = find(load(root, L), "TextXVisitor.visit_reference_stm"); ps = [a.arg for a in vr.args.args]
+    for children, want in ((["types", "t"], {"t": "types"}), (["types"], {"types": "types"}), (["a.b.Lang", "l"], {"l": "a.b.Lang"})):
+        inst += 1
+        mm = {".kind": "metamodel", ".referenced_languages": {"earlier": "Earlier"}}
+        env = {"__functions__": {k_: v_ for k_, v_ in helper_functions(root, L, "TextXVisitor.visit_reference_stm").items() if k_.startswith("_") and not k_.startswith("__")}, ps[0]: {".kind": "visitor", ".metamodel": mm, ".debug": False}, ps[1]: {".kind": "node", ".position": 0}, ps[2]: list(children)}
+        err, _v = _run(vr, env, "visit_reference_stm")
+        got = {k_: v_ for k_, v_ in mm[".referenced_languages"].items() if k_ != "earlier"}
+        ok = err is None and got == want and mm[".referenced_languages"].get("earlier") == "Earlier"
+        ob("C25", "C25.k", L, "TextXVisitor.visit_reference_stm", "reference %s -> %s" % (" as ".join(children), got), ok)
+        if not ok: out.append(Finding("C25", "C25.k", L, "TextXVisitor.visit_reference_stm", "reference " + " as ".join(children), "the statement  reference %s  makes these language names known: %s%s; documented exactly %s (a name that is not declared must keep denoting what it denotes otherwise, e.g. an imported grammar file of that name)" % (" as ".join(children), got, " (%s)" % err if err else "", want), witness="reference types as t + import types"))
+    return inst, out
+
+def r_modelparams(root):
+    """C27.f  textx/model_params.py decided by evaluation (its classes are instantiated by interpreting their __init__):
+    parameter definitions are kept and checked under the very name they were added with - a declared name is accepted by
+    check_params in exactly its own spelling, any other spelling and any undeclared name is a TextXError; ModelParams keeps
+    the values it was given (also None), hands them out under their own names and records which were read."""
+    out = []; inst = 0
+    MP = "textx/model_params.py"; t = load(root, MP)
+    cds = {c.name: c for c in t.body if isinstance(c, ast.ClassDef)}
+    for need in ("ModelParams", "ModelParamDefinitions"):
+        if need not in cds: raise AnalysisError("model_params.py: class %s not found" % need)
+    env = {"__classdefs__": cds, "__functions__": {f.name: f for f in t.body if isinstance(f, ast.FunctionDef)}, "__module__": None,
+           "ModelParamDefinition": pyeval.PyFn(lambda name, description: {".name": name, ".description": description, ".kind": "definition"}),
+           "TextXError": pyeval.PyFn(lambda *a, **k: {".cls": "TextXError"}), "reduce": pyeval.PyFn(lambda f, it, init: __import__("functools").reduce(f, list(it), init)), "iter": pyeval.PyFn(lambda x: list(x))}
+    def call(o, meth, *a, **k):
+        c_, f_ = pyeval.find_method(cds, o[".__cls__"], meth)
+        if f_ is None: raise AnalysisError("%s.%s not found" % (o[".__cls__"], meth))
+        try: return ("ret", pyeval.call_method_of(o, c_, f_, list(a), k, env))
+        except pyeval.Raised as r_: return ("raise", r_.cls)
+        except pyeval.Unsupported as u_: raise AnalysisError("%s.%s: outside the evaluated subset: %s" % (o[".__cls__"], meth, u_))
+    def rep(what, ok, msg, fn_="ModelParamDefinitions"):
+        nonlocal inst
+        inst += 1; ob("C27", "C27.f", MP, fn_, what, ok)
+        if not ok: out.append(Finding("C27", "C27.f", MP, fn_, what, msg))
+    try: defs = pyeval.instantiate("ModelParamDefinitions", [], {}, env)
+    except pyeval.Unsupported as u_: raise AnalysisError("ModelParamDefinitions(): outside the evaluated subset: %s" % u_)
+    for n_ in ("outDir", "strict", "project_root", "Mixed-Name"): call(defs, "add", n_, "description of " + n_)
+    for given, ok_want in (("outDir", True), ("strict", True), ("project_root", True), ("Mixed-Name", True), ("outdir", False), ("OUTDIR", False), ("Strict", False), ("mixed_name", False), ("mixed-name", False), ("unknown", False)):
+        k, v = call(defs, "check_params", "the source", **{given: 1})
+        ok = (k == "ret") if ok_want else (k == "raise" and str(v).startswith("TextX"))
+        rep("parameter %r %s" % (given, "accepted" if k == "ret" else "rejected"), ok, "with the parameters outDir, strict, project_root and Mixed-Name declared, a load given the parameter %r is %s; documented: %s (a parameter is known under exactly the name it was declared with)" % (given, "accepted" if k == "ret" else "rejected with %s" % v, "accepted" if ok_want else "a TextXError"), )
+    k, v = call(defs, "__getitem__", "outDir")
+    rep("a declared definition is found under its name", k == "ret" and isinstance(v, dict) and v.get(".name") == "outDir", "the definition declared as 'outDir' %s" % ("is found as %r" % (v,) if k == "ret" else "is not found under that name (%s)" % v))
+    k, v = call(defs, "__iter__")
+    rep("the declared names are listed as declared", k == "ret" and sorted(v) == sorted(["outDir", "strict", "project_root", "Mixed-Name"]), "iterating the definitions yields %s, declared were outDir, strict, project_root, Mixed-Name" % (sorted(v) if k == "ret" else v,))
+    try: mp = pyeval.instantiate("ModelParams", [{"outDir": "/o", "strict": None, "n": 0}], {}, env)
+    except pyeval.Unsupported as u_: raise AnalysisError("ModelParams(): outside the evaluated subset: %s" % u_)
+    vals = [call(mp, "__getitem__", k_) for k_ in ("outDir", "strict", "n")]
+    rep("values are handed out as given (also None and 0)", vals == [("ret", "/o"), ("ret", None), ("ret", 0)], "ModelParams({'outDir': '/o', 'strict': None, 'n': 0}) hands out %s" % (vals,), "ModelParams")
+    k, v = call(mp, "__iter__"); k2, v2 = call(mp, "__len__")
+    rep("all given parameters are exposed", k == "ret" and sorted(v) == ["n", "outDir", "strict"] and (k2, v2) == ("ret", 3), "the parameters exposed by the model are %s (%s of them); given were n, outDir, strict" % (sorted(v) if k == "ret" else v, v2), "ModelParams")
+    k, v = call(mp, "__getitem__", "missing")
+    rep("an absent parameter is a KeyError", k == "raise" and v == "KeyError", "reading a parameter that was not given %s" % ("returns %r" % (v,) if k == "ret" else "raises %s" % v), "ModelParams")
+    return inst, out
